@@ -76,17 +76,22 @@ type pathEnv struct {
 
 func newPathEnv() *pathEnv {
 	debug.SetGCPercent(-1) // sync.Pool is cleared by the collector: the drained pools must show every Put
+	pe := &pathEnv{cl: &pathClient{}}
+	pe.reset()
+	return pe
+}
+
+// fresh ingestors (also after a call that lost a ticket: later calls must not wait for it)
+func (pe *pathEnv) reset() {
 	mp, err := mappingprovider.New("", mappingprovider.WithMapping(mapping))
 	if err != nil {
 		panic(err)
 	}
-	pe := &pathEnv{cl: &pathClient{}}
 	cfg := bulk.IngestorConfig{MaxInflightBulks: 3, AllowedTimeDrift: time.Hour, FutureAllowedTimeDrift: time.Minute,
 		MappingProvider: mp, MaxTokenSize: 72, MaxDocumentSize: 4096}
 	pe.ing = bulk.NewIngestor(cfg, pe.cl)
 	cfg.MaxInflightBulks = 0
 	pe.lim = bulk.NewIngestor(cfg, pe.cl)
-	return pe
 }
 
 func distinct[T comparable](l []T) bool {
@@ -177,6 +182,9 @@ func runPath(pe *pathEnv, ps *pathSpec, emit func(record)) {
 	o.CtxTaken = ps.Ctx && reads == 0 && errors.Is(err, context.Canceled)
 	o.Pools, o.Dup = drainPools(ing)
 	o.Tickets = t0 - ing.VerifTickets()
+	if o.Tickets != 0 {
+		defer pe.reset()
+	}
 	var its []string
 	kind := "ok"
 	for _, d := range ps.Docs {
